@@ -100,6 +100,11 @@ fn gen_case(rng: &mut Rng, out: &mut Out, tier: &str) {
                     format!("ev fill {i} {} {}", if rng.chance(50) { "B" } else { "S" }, 1 + rng.below(3))
                 }
             }
+            94..=96 => format!(
+                "ev other {} {}",
+                rng.pick(&["mktre", "accre", "bal"]),
+                rng.below(nex as u64)
+            ),
             _ => format!("ev price {i} {}", 100 + rng.below(5)),
         };
         out.line(line);
